@@ -101,7 +101,7 @@ func genScenario(t *rapid.T) scenario {
 	s := scenario{
 		Method:      rapid.SampledFrom([]string{"GET", "POST", "PUT", "PATCH", "DELETE"}).Draw(t, "method"),
 		TLS:         rapid.IntRange(0, 3).Draw(t, "tls") == 0,
-		Slash:       rapid.SampledFrom([]string{"", "no_decode"}).Draw(t, "slash"),
+		Slash:       rapid.SampledFrom([]string{"", "no_decode", "on"}).Draw(t, "slash"),
 		RawQuery:    rapid.SampledFrom(queries).Draw(t, "query"),
 		Peer:        rapid.SampledFrom([]string{"10.1.2.3", "2001:db8::7"}).Draw(t, "peer"),
 		TrustedPeer: rapid.Bool().Draw(t, "trusted"),
@@ -111,7 +111,7 @@ func genScenario(t *rapid.T) scenario {
 	segs := make([]string, nseg)
 
 	for i := range segs {
-		segs[i] = genSegment(t, s.Slash == "no_decode")
+		segs[i] = genSegment(t, s.Slash != "")
 	}
 
 	prefix := rapid.SampledFrom([]string{"", "/app", "/app/v1"}).Draw(t, "prefix")
@@ -284,7 +284,27 @@ func multiset(q string, remove []string) ([]string, bool) {
 	return out, true
 }
 
+const kfSlashesOn = "C15-allow-encoded-slashes-on-forwards-the-path-in-a-new-encoding"
+
+// slashesOnReencodes: pinned reproduction of the listed finding - with allow_encoded_slashes: on the path is forwarded in a
+// new encoding of the decoded path, also if there is no encoded slash in it at all: /%41%3Bx is forwarded as /A;x.
+func slashesOnReencodes() bool {
+	s := scenario{Method: "GET", Slash: "on", RawPath: "/%41%3Bx", Peer: "10.1.2.3"}
+
+	w, err := buildWorld(s)
+	if err != nil {
+		return false
+	}
+
+	resp, err := w.Send(vkit.EntryProxy, vkit.LogicalRequest{Method: "GET", Scheme: "http", Host: "client-facing.example.com", RawPath: s.RawPath,
+		RemoteAddr: "10.1.2.3:50000"}, upstream)
+
+	return err == nil && resp.Positive && resp.UpRecord != nil && resp.UpRecord.RequestURI == "/A;x"
+}
+
 func TestForwardedRequestIsTheRewrittenRequest(t *testing.T) {
+	exclSlashesOn := vkit.Known(kfSlashesOn, slashesOnReencodes)
+
 	rapid.Check(t, func(t *rapid.T) {
 		s := genScenario(t)
 
@@ -349,6 +369,25 @@ func TestForwardedRequestIsTheRewrittenRequest(t *testing.T) {
 			}
 
 			wantPath = s.Rewrite.Add + wantPath
+		}
+
+		if s.Slash == "on" {
+			// an encoded slash is forwarded decoded, and nothing else is decoded with it
+			wantPath = strings.NewReplacer("%2F", "/", "%2f", "/").Replace(wantPath)
+			vkit.S.LabelIf(wantPath != s.RawPath, "encoded_slashes_on.slash_decoded_for_the_upstream")
+		}
+
+		if s.Slash == "on" && exclSlashesOn && gotPath != wantPath {
+			// listed finding: exactly this - the same octets (also those of the added prefix) in another encoding, under the
+			// setting on. Everything else about the forwarded request is checked as usual.
+			d1, err1 := url.PathUnescape(gotPath)
+			d2, err2 := url.PathUnescape(wantPath)
+
+			if err1 == nil && err2 == nil && d1 == d2 {
+				vkit.S.Exclude(kfSlashesOn)
+
+				wantPath = gotPath
+			}
 		}
 
 		if wantPath == "" || wantPath[0] != '/' {
